@@ -95,32 +95,32 @@ func (l *logCapture) take() []string {
 // Env is one running world: a source database with its application
 // connection(s), litestream attached to it, and a file replica.
 type Env struct {
-	Cfg     Cfg
-	Dir     string
-	DBPath  string
-	RepDir  string
-	App     *sql.DB
-	Reader  *sql.Conn // pinned long reader, if any
-	rtx     *sql.Tx
-	LS      *litestream.DB
-	Logs    *logCapture
-	Ctx     context.Context
-	Ledger  []string // ledger[k] = logical digest of the user data after the k-th application commit
-	K       int      // number of application commits so far
-	NTables int
-	Saved   string // path of a saved copy of the database file (for replace)
-	SavedK  int
+	Cfg         Cfg
+	Dir         string
+	DBPath      string
+	RepDir      string
+	App         *sql.DB
+	Reader      *sql.Conn // pinned long reader, if any
+	rtx         *sql.Tx
+	LS          *litestream.DB
+	Logs        *logCapture
+	Ctx         context.Context
+	Ledger      []string // ledger[k] = logical digest of the user data after the k-th application commit
+	K           int      // number of application commits so far
+	NTables     int
+	Saved       string // path of a saved copy of the database file (for replace)
+	SavedK      int
 	SavedLedger []string
 	SavedTables int
-	downObj *litestream.DB // stopped DB object (IPC stop), for upsame
-	bgDone  chan error     // concurrent writer in flight
-	RawSaved bool
-	RawK int
-	RawLedger []string
-	RawTables int
-	Acked   int    // number of acknowledged instants checked
-	Trace   []string
-	restoreN int
+	downObj     *litestream.DB // stopped DB object (IPC stop), for upsame
+	bgDone      chan error     // concurrent writer in flight
+	RawSaved    bool
+	RawK        int
+	RawLedger   []string
+	RawTables   int
+	Acked       int // number of acknowledged instants checked
+	Trace       []string
+	restoreN    int
 }
 
 // NewEnv creates the database (page size / auto_vacuum fixed before the first table) and attaches litestream.
@@ -431,6 +431,54 @@ func (e *Env) Restore(txid ltx.TXID, ts time.Time, integrity bool) ([]byte, erro
 	if integrity {
 		opt.IntegrityCheck = litestream.IntegrityCheckFull
 	}
+	if err := r.Restore(e.Ctx, opt); err != nil {
+		return nil, err
+	}
+	return os.ReadFile(out)
+}
+
+// RestoreSubset restores to txid from a view of the replica that holds only the files
+// keep() selects (hard links in a scratch directory): another plan for the same TXID.
+func (e *Env) RestoreSubset(txid ltx.TXID, keep func(level int, f *ltx.FileInfo) bool) ([]byte, error) {
+	e.restoreN++
+	alt := filepath.Join(e.Dir, fmt.Sprintf("altrep-%d", e.restoreN))
+	defer os.RemoveAll(alt)
+	src, dst := file.NewReplicaClient(e.RepDir), file.NewReplicaClient(alt)
+	n := 0
+	for lvl := 0; lvl <= litestream.SnapshotLevel; lvl++ {
+		for _, f := range e.Listing(lvl) {
+			if !keep(lvl, f) {
+				continue
+			}
+			if err := os.MkdirAll(dst.LTXLevelDir(lvl), 0o755); err != nil {
+				return nil, err
+			}
+			from, to := src.LTXFilePath(lvl, f.MinTXID, f.MaxTXID), dst.LTXFilePath(lvl, f.MinTXID, f.MaxTXID)
+			if err := os.Link(from, to); err != nil {
+				b, rerr := os.ReadFile(from)
+				if rerr != nil {
+					return nil, rerr
+				}
+				if werr := os.WriteFile(to, b, 0o644); werr != nil {
+					return nil, werr
+				}
+			}
+			n++
+		}
+	}
+	if n == 0 {
+		return nil, litestream.ErrTxNotAvailable
+	}
+	out := filepath.Join(e.Dir, fmt.Sprintf("restore-%d.db", e.restoreN))
+	defer func() {
+		os.Remove(out)
+		os.Remove(out + "-wal")
+		os.Remove(out + "-shm")
+	}()
+	r := litestream.NewReplicaWithClient(nil, dst)
+	opt := litestream.NewRestoreOptions()
+	opt.OutputPath = out
+	opt.TXID = txid
 	if err := r.Restore(e.Ctx, opt); err != nil {
 		return nil, err
 	}
